@@ -470,6 +470,8 @@ OPNMIDI_EXPORT void opn2_setLogarithmicVolumes(struct OPN2_MIDIPlayer *device, i
     {
         if(play->m_setup.LogarithmicVolumes != 0)
             synth.setVolumeScaleModel(OPNMIDI_VolumeModel_NativeOPN2);
+        else if(play->m_setup.VolumeModel == OPNMIDI_VolumeModel_AUTO)//Use bank default volume model
+            synth.m_volumeScale = (Synth::VolumesScale)synth.m_insBankSetup.volumeModel;
         else
             synth.setVolumeScaleModel(static_cast<OPNMIDI_VolumeModels>(play->m_setup.VolumeModel));
     }
